@@ -125,6 +125,7 @@ class RefStore:
             return
         dom = sc.get("domain")
         if dom:
+            dom = dom.lower()  # RFC 6265 5.2.3: "Convert the cookie-domain to lower case"
             dom = dom.lstrip(".") if dom.startswith(".") else dom
         if dom:
             if not domain_match(dom, h):
@@ -295,6 +296,9 @@ def execute(case: dict) -> dict:
                 url = tuple(op[2])
                 counter += 1
                 sc["value"] = f"v{counter}"
+                if sc.get("expires_abs") is not None:
+                    sc.pop("expires_in", None)
+                    sc["expires"] = float(sc.pop("expires_abs"))  # 0 = "Thu, 01 Jan 1970 00:00:00 GMT", the classic deletion
                 if sc.get("expires_in") is not None:
                     sc["expires"] = float(int(clock.now + sc.pop("expires_in")))
                 ref.set_cookie(sc, url, clock.now)
@@ -383,12 +387,12 @@ def body(rec: Rec, case: dict) -> None:
 
 # ------------------------------------------------------------------ generators
 DOMAINS = [None, None, "example.com", ".example.com", "sub.example.com", "com", "ample.com", "badexample.com",
-           "example.org", "a.sub.example.com", "127.0.0.1"]
-SET_PATHS = [None, None, "/", "/x", "/x/y", "x", "/x/"]
+           "example.org", "a.sub.example.com", "127.0.0.1", "Example.COM", ".SUB.example.com"]
+SET_PATHS = [None, None, "/", "/x", "/x/y", "x", "/x/", "/x//", "//"]
 
 
 def set_cookie_st(trailing_slash: bool):
-    paths = SET_PATHS if trailing_slash else [p for p in SET_PATHS if p != "/x/"]
+    paths = SET_PATHS if trailing_slash else [p for p in SET_PATHS if p not in ("/x/", "/x//", "//")]
     return st.fixed_dictionaries(
         {"name": st.sampled_from(["a", "b"])},
         optional={
@@ -397,6 +401,7 @@ def set_cookie_st(trailing_slash: bool):
             "secure": st.booleans(),
             "max_age": st.sampled_from(["0", "5", "50", "-1", "abc"]),
             "expires_in": st.sampled_from([-10, 5, 50]),
+            "expires_abs": st.sampled_from([None, None, None, None, None, None, 0, 1]),
             "date_fmt": st.sampled_from(list(range(9)) + [100, 103, 105]),
             "bad_date": st.sampled_from([None, None, None, None, None] + list(range(8))),
         },
